@@ -1,4 +1,5 @@
 #!/bin/sh
+exec </dev/null   # children (cargo's `rustc -` probe) must not read an inherited stdin
 # tools/confirm_seed.sh <ID>: confirm a seeded defect in its scratch worktree /tmp/wt_<ID>:
 #   demo fails with the change, existing tests pass with the change, demo passes without it.
 # Writes /tmp/seed_<ID>/confirm.log and copies the kept files to /verif/seeded/<ID>/.
